@@ -25,6 +25,58 @@ type PSpec struct {
 	MaxItems         *int64
 	Unique           bool
 	ItemMin          *int64
+	Inner            *ISpec // non-nil: the items are themselves arrays (nested array parameter)
+}
+
+// ISpec: an items object that is an array; its own items are a leaf (Type/Format/constraints) or a deeper array
+type ISpec struct {
+	CFmt               string
+	MinItems, MaxItems *int64
+	Unique             bool
+	Inner              *ISpec
+	Type, Format       string // leaf
+	Min                *int64
+	MinLen             *int64
+}
+
+func (is *ISpec) json() map[string]interface{} {
+	m := map[string]interface{}{"type": "array"}
+	if is.CFmt != "" {
+		m["collectionFormat"] = is.CFmt
+	}
+	if is.MinItems != nil {
+		m["minItems"] = *is.MinItems
+	}
+	if is.MaxItems != nil {
+		m["maxItems"] = *is.MaxItems
+	}
+	if is.Unique {
+		m["uniqueItems"] = true
+	}
+	if is.Inner != nil {
+		m["items"] = is.Inner.json()
+		return m
+	}
+	it := map[string]interface{}{"type": is.Type}
+	if is.Format != "" {
+		it["format"] = is.Format
+	}
+	if is.Min != nil {
+		it["minimum"] = *is.Min
+	}
+	if is.MinLen != nil {
+		it["minLength"] = *is.MinLen
+	}
+	m["items"] = it
+	return m
+}
+
+// leaf: the innermost level
+func (is *ISpec) leaf() *ISpec {
+	for is.Inner != nil {
+		is = is.Inner
+	}
+	return is
 }
 
 type RSpec struct {
@@ -79,7 +131,12 @@ func (p *PSpec) json(isHeader bool) map[string]interface{} {
 	if p.Format != "" {
 		m["format"] = p.Format
 	}
-	if p.Type == "array" {
+	if p.Type == "array" && p.Inner != nil {
+		m["items"] = p.Inner.json()
+		if p.CFmt != "" {
+			m["collectionFormat"] = p.CFmt
+		}
+	} else if p.Type == "array" {
 		it := map[string]interface{}{"type": p.ItemType}
 		if p.ItemFormat != "" {
 			it["format"] = p.ItemFormat
@@ -343,6 +400,77 @@ func (g *gen) param(in, name string) PSpec {
 	return p
 }
 
+// nestedParam: an array of arrays (sometimes of arrays) whose requests are exercised: distinct separators per level
+func (g *gen) nestedParam(in, name string) PSpec {
+	p := PSpec{Name: name, GoName: goName(name), In: in, Type: "array"}
+	seps := []string{"pipes", "csv", "ssv", "tsv"}
+	if in == "header" {
+		seps = []string{"pipes", "csv", "ssv"}
+	}
+	for i := len(seps) - 1; i > 0; i-- {
+		j := g.r.Intn(i + 1)
+		seps[i], seps[j] = seps[j], seps[i]
+	}
+	p.CFmt = seps[0]
+	if p.CFmt == "csv" && g.r.Chance(1, 2) {
+		p.CFmt = "" // the default
+	}
+	depth := 1
+	if g.r.Chance(1, 4) {
+		depth = 2
+	}
+	var mk func(d int) *ISpec
+	mk = func(d int) *ISpec {
+		is := &ISpec{CFmt: seps[1+depth-d]}
+		switch g.r.Intn(5) {
+		case 0:
+			is.MinItems = i64(2)
+		case 1:
+			is.MaxItems = i64(3)
+		case 2:
+			is.Unique = true
+		case 3:
+			is.MaxItems, is.Unique = i64(3), true
+		}
+		if d > 1 {
+			is.Inner = mk(d - 1)
+			return is
+		}
+		switch g.r.Intn(4) {
+		case 0:
+			is.Type = "string"
+			if g.r.Chance(1, 2) {
+				is.MinLen = i64(2)
+			}
+		case 1:
+			is.Type = "boolean"
+		default:
+			is.Type = "integer"
+			is.Format = g.r.Pick([]string{"", "int32", "int64", "uint32"})
+			if g.r.Chance(1, 2) {
+				is.Min = i64(1)
+			}
+		}
+		return is
+	}
+	p.Inner = mk(depth)
+	switch g.r.Intn(5) {
+	case 0:
+		p.MinItems = i64(2)
+	case 1:
+		p.MaxItems = i64(3)
+	case 2:
+		p.Unique = true
+	}
+	p.Required = g.r.Chance(1, 3)
+	lf := p.Inner.leaf()
+	g.hit(fmt.Sprintf("nested-request:param:%s:depth=%d:leaf=%s:%s", in, depth+1, lf.Type, lf.Format))
+	if p.Unique {
+		g.hit("nested-request:outer-unique")
+	}
+	return p
+}
+
 // nestItems: an items object of the given remaining depth; leaves of every simple type, validations present or absent at each level
 func (g *gen) nestItems(depth int, header bool) map[string]interface{} {
 	if depth > 0 {
@@ -542,6 +670,13 @@ func (g *gen) spec(nops int, variant int) *Spec {
 			{Name: "m", GoName: "M", In: "query", Type: "integer", Format: "uint32", Min: i64(1), Max: i64(10), XMin: true}},
 		Responses: []RSpec{{Code: 200}}, HasSecurity: true, Security: [][]string{}})
 	g.hit("param:required+allowEmptyValue:formData")
+	// nested array parameters whose requests are exercised (reference binder: refNested)
+	sp.Ops = append(sp.Ops, OSpec{ID: "opnested", Method: "get", Path: "/opnested",
+		Params:    []PSpec{g.nestedParam("query", "nq0"), g.nestedParam("query", "nq1"), g.nestedParam("query", "nq2"), g.nestedParam("header", "X-Nested")},
+		Responses: []RSpec{{Code: 200}}, HasSecurity: true, Security: [][]string{}})
+	sp.Ops = append(sp.Ops, OSpec{ID: "opnestedform", Method: "post", Path: "/opnestedform", Consumes: []string{"application/x-www-form-urlencoded"},
+		Params:    []PSpec{g.nestedParam("formData", "nf0"), g.nestedParam("formData", "nf1")},
+		Responses: []RSpec{{Code: 200}}, HasSecurity: true, Security: [][]string{}})
 	sp.Extra = g.extraOps()
 	return sp
 }
